@@ -1,9 +1,16 @@
 package desync
 
 import (
+	"bytes"
 	"encoding/binary"
+	"errors"
 	"io"
+	"math"
 )
+
+// Upper limit for the up-front allocation when reading a number of bytes given
+// in the (untrusted) input. Anything larger is grown as data actually arrives.
+const readNPrealloc = 64 * 1024
 
 type reader struct {
 	io.Reader
@@ -22,11 +29,24 @@ func (r reader) ReadUint64() (uint64, error) {
 // ReadN returns the next n bytes from the reader or an error if there are not
 // enough left
 func (r reader) ReadN(n uint64) ([]byte, error) {
-	b := make([]byte, n)
-	if _, err := io.ReadFull(r, b); err != nil {
+	if n > math.MaxInt64 {
+		return nil, errors.New("invalid length")
+	}
+	// n comes from the input and can't be trusted, don't allocate it all
+	// up front. Grow the buffer as the data comes in.
+	var buf bytes.Buffer
+	if n < readNPrealloc {
+		buf.Grow(int(n))
+	} else {
+		buf.Grow(readNPrealloc)
+	}
+	if m, err := io.CopyN(&buf, r, int64(n)); err != nil {
+		if err == io.EOF && m > 0 {
+			err = io.ErrUnexpectedEOF
+		}
 		return nil, err
 	}
-	return b, nil
+	return buf.Bytes(), nil
 }
 
 // ReadID reads and returns a ChunkID
